@@ -8,13 +8,15 @@
 (*   tequila.BuildMapTree / PathTrie.Put   one Put per included node (cmd/arch.go's     *)
 (*                                  nodeFilter: contains one of the filter strings)     *)
 (*   tequila.MapToGraph / buildGraphNode   leaves of the trie become drawn nodes,       *)
-(*                                  registered under the dotted join of the trie Values *)
+(*                                  registered under their node key (their trie path)   *)
 (*   edge loop of MapToGraph        an edge iff both ends are registered                *)
 (* The abstract input (ArchRef's JSON shape) is chosen incrementally: the set of types  *)
 (* in Init, the relations of a class when Analysis reaches it, the merge switches when  *)
 (* cmd/arch.go reads them, the filter when BuildMapTree starts. The Machine's outputs   *)
 (* are judged by the same Reference (ArchRef!Diff) that judges the real code in         *)
-(* Arch_Trace.                                                                          *)
+(* Arch_Trace. The Machine describes the code with the repairs C13-1..3 applied; each    *)
+(* repair can be switched off by a constant (FixKey / FixLeaving / FixRegister = FALSE)  *)
+(* to get the algorithm as found, on which TLC reproduces the corresponding defect.      *)
 EXTENDS ArchRef, Integers, SequencesExt, FiniteSetsExt, Json
 
 CONSTANTS Universe,      \* Seq([pkg : Seq(String), name : String]): candidate types
